@@ -514,6 +514,7 @@ class RefCodec:
     def __init__(self, schema, r):
         self.s, self.r = schema, r
         self.unsorted_dict = False
+        self.alt2 = None  # random stream: TL2 alternative (non-canonical but equal) encodings - explicit empties, explicit zero masks (C13)
         self.strict_masks = False  # C28 value domain: masks set only bits the schema gives meaning to, unused '#' are 0
 
     # ---- random abstract values ----------------------------------------------------------
@@ -721,7 +722,9 @@ class RefCodec:
         k = t.kind
         if k in ("prim", "boxedprim"):
             if t.name.lower() == "string":
-                return b"" if (opt and not v) else tl2size(len(v)) + v
+                if not v:
+                    return b"" if opt else self.empty2(is_string=True)
+                return tl2size(len(v)) + v
             if t.name.lower() in ("float", "double") and v == b"\0" * (len(v) - 1) + b"\x80":
                 self.saw_negative_zero = True
             return b"" if (opt and v == b"\0" * len(v)) else v
@@ -730,14 +733,14 @@ class RefCodec:
         if k == "bool":
             return b"" if (opt and not v) else (b"\1" if v else b"\0")
         if k == "true":
-            return b"" if opt else b"\0"
+            return b"" if opt else self.empty2()
         if k == "vector":
             return self.arr2(t.elem, v, cenv, opt)
         if k == "tuple":
             return self.arr2(t.elem, v, cenv, opt)
         if k == "maybe":
             if v is None:
-                return b"" if opt else b"\0"
+                return b"" if opt else self.empty2()
             x = self.enc2(t.elem, v[1], cenv, True)
             body = bytes([0x01 | (0x02 if x else 0)]) + b"\1" + x
             return tl2size(len(body)) + body
@@ -751,9 +754,20 @@ class RefCodec:
         c2 = {p: (a.kind == "const" or (a.kind == "param" and cenv.get(a.val, False))) for (p, _), a in zip(d.params, t.args)}
         return self.enc2_decl(d, v, c2, opt)
 
+    def empty2(self, is_string=False):
+        """an empty sized value where it cannot be left out: 00, or (alternative mode) size 1 + zero mask/count byte, or the 9-byte zero size"""
+        if self.alt2 is None:
+            return b"\0"
+        k = self.alt2.below(4)
+        if k == 0 and not is_string:
+            return b"\1\0"
+        if k == 1:
+            return b"\xff" + b"\0" * 8
+        return b"\0"
+
     def arr2_raw(self, elems, opt):
         if not elems:
-            return b"" if opt else b"\0"
+            return b"" if opt else self.empty2()
         body = tl2size(len(elems)) + b"".join(elems)
         return tl2size(len(body)) + body
 
@@ -762,7 +776,7 @@ class RefCodec:
 
     def obj2(self, body, opt):
         if not body:
-            return b"" if opt else b"\0"
+            return b"" if opt else self.empty2()
         return tl2size(len(body)) + body
 
     def body2(self, items, cenv, variant_index=0):
@@ -787,10 +801,15 @@ class RefCodec:
             else:
                 data = enc(True)
                 setbit = bool(data)
+                if not data and self.alt2 is not None and self.alt2.chance(1, 3):
+                    data = enc(False)  # an empty field given explicitly: presence bit set, value written out
+                    setbit = True
             if setbit:
                 blocks[slot // 8][0] |= 1 << (slot % 8)
                 blocks[slot // 8][1] += data
         while blocks and blocks[-1][0] == 0 and not blocks[-1][1]:
+            if self.alt2 is not None and blocks[0][0] | len(blocks) > 1 and self.alt2.chance(1, 3):
+                break  # explicit zero presence mask kept at the end of the body
             blocks.pop()
         return b"".join(bytes([m]) + dta for m, dta in blocks)
 
@@ -1086,6 +1105,9 @@ def fixed_shapes():
     add("useExt", [nat("n"), Field("e", T("ref", decl=ext, bare=True, pct=False, args=[NatExpr("field", "n")])), Field("tail", i32())])
     add("useExtVec", [nat("n"), Field("es", T("vector", elem=T("ref", decl=ext, bare=True, pct=False, args=[NatExpr("field", "n")]), form="bare"))])
     add("flagsOnly", [nat("fm"), Field("p", tr(), m("fm", 0)), Field("q", tr(), m("fm", 5))])
+    emp = add("empty", [])
+    add("useEmpty", [Field("a", i32()), Field("e", T("ref", decl=emp, bare=True, pct=False, args=[])), Field("t", tr()), Field("u", T("true", boxed=True)), Field("b", i32()), Field("s", st()),
+                     Field("es", T("vector", elem=T("ref", decl=emp, bare=True, pct=False, args=[]), form="bare")), Field("c", i32())])
     add("bigstr", [Field("s", st()), Field("t", T("vector", elem=st(), form="bare")), Field("u", T("dict", key="str", elem=i32(), boxed=False))])
     return s
 
